@@ -3,7 +3,6 @@ package worlds
 import (
 	"encoding/hex"
 	"fmt"
-	"math"
 	"sort"
 
 	"github.com/DataDog/sketches-go/ddsketch"
@@ -445,14 +444,12 @@ func c08Mismatch(x *fleetExec, e engine.Event) {
 	if nd == nil || m == nil || m.form != "bin" || m.mkey == nd.mkey || nd.exact() != m.exact {
 		return
 	}
-	// different kind, or same kind with clearly different accuracy
-	if m.spec.Map == nd.spec.Map {
-		a, b := float64(m.spec.Alpha), nd.alpha()
-		if math.Abs(a-b) < 1e-3*math.Max(a, b) || m.spec.ByGam || nd.spec.ByGam {
-			return
-		}
+	// different kind, clearly different accuracy, or same base with another index offset
+	if diff, ok := clearlyDifferent(&m.spec, &nd.spec, true); !ok || !diff {
+		return
 	}
 	sig := "mismatch/" + nd.spec.Role + "/" + nd.spec.Store
+	x.st.ProbeIf(m.spec.Map == nd.spec.Map && m.spec.ByGam && nd.spec.ByGam, "mismatch-in-offset-only")
 	x.st.Oracle("mapping-mismatch")
 	for _, mode := range []c08Mode{c08FreshSupplied, c08IntoCopy} {
 		_, derr := x.c08Decode(nd, m.data, mode, sig)
